@@ -4,11 +4,12 @@
 -/
 import Driver.Ops
 import Driver.OpsCompare
+import Driver.OpsCodec
 open Lean
 namespace Driver
 
 def allOps : List (String × Op) :=
-  opsCompare
+  opsCompare ++ opsCodec
 
 def handle (line : String) : Json :=
   match Json.parse line with
